@@ -150,11 +150,6 @@ def nat(n: int) -> str:
     return str(n)
 
 
-def expr_term(expr: list, src: str) -> str:
-    return C.clist((f"({etok_term(e, src)})" if not etok_term(e, src).startswith("(") else etok_term(e, src)
-                    for e in expr), "etok")
-
-
 def _elist(expr: list, src: str) -> str:
     return C.clist((etok_term(e, src) for e in expr), "etok")
 
@@ -387,3 +382,54 @@ def oracle(out: tuple, src: str) -> str | None:
     if at != n:
         return f"tiling: last token stops at {at}, source length {n}"
     return None
+
+
+# ---------------------------------------------------------------- correspondence with one retry
+
+
+def correspond(chk: Any, tag: str, imports: str, defs: str, items: list, *, what: str, shard: int) -> dict:
+    """C.correspond, except that shard files that did not evaluate at all (coqc
+    killed, e.g. under memory pressure - the output is empty) are evaluated a
+    second time before anything is reported.  Disagreements and persistent
+    build errors are reported exactly as C.correspond reports them."""
+    import json
+    import re
+    import time
+
+    cases = [it["case"] for it in items]
+    rc = C.run_cases(tag, imports, defs, cases, shard=shard)
+    for attempt in (1, 2):
+        if not rc["errors"]:
+            break
+        failed = sorted({int(m.group(1)) for e in rc["errors"] for m in [re.match(r"s(\d+)\.v", e)] if m})
+        idx = [i for k in failed for i in range(k * shard, min((k + 1) * shard, len(cases)))]
+        if not idx:
+            break
+        time.sleep(5 * attempt)
+        rc2 = C.run_cases(f"{tag}_retry{attempt}", imports, defs, [cases[i] for i in idx],
+                          shard=max(20, shard // 4))
+        rc = {"n": rc["n"], "bad": sorted(set(rc["bad"]) | {idx[j] for j in rc2["bad"]}),
+              "errors": rc2["errors"], "wall": rc["wall"] + rc2["wall"]}
+    for e in rc["errors"]:
+        chk.notes.append("coq case error: " + e[:400])
+    if rc["bad"]:
+        ids = rc["bad"][:3]
+        outs = C.eval_terms(tag, imports, defs, [items[i]["model"] for i in ids])
+        for i, o in zip(ids, outs):
+            chk.notes.append(f"{what}: model/implementation disagree on case #{i}: "
+                             f"{json.dumps(items[i]['replay'], default=str)[:300]} model={o[:300]}")
+        if not chk.violations:
+            i, o = ids[0], outs[0]
+            chk.finding("correspondence:" + what,
+                        f"model and implementation disagree ({len(rc['bad'])} of {rc['n']} cases); no direct property failure found",
+                        {"case": items[i]["replay"], "model": o, "broken": f"correspondence {what}",
+                         "disagreeing_cases": rc["bad"][:50]}, no_input=True)
+    elif rc["errors"] and not chk.violations:
+        chk.finding("correspondence:" + what + ":build", "generated case files did not evaluate",
+                    {"errors": rc["errors"][:3], "broken": f"correspondence {what} (coqc on generated cases)"},
+                    no_input=True)
+    chk.coverage["model_cases"] = chk.coverage.get("model_cases", 0) + rc["n"]
+    chk.coverage["model_disagreements"] = chk.coverage.get("model_disagreements", 0) + len(rc["bad"])
+    w = chk.coverage.setdefault("correspondence_wall_s", {})
+    w[what] = round(w.get(what, 0) + rc["wall"], 1)
+    return rc
